@@ -144,6 +144,9 @@ where
   /// Returns a `Future` that resolves to the message or an error if the
   /// channel is disconnected.
   pub fn recv(&self) -> RecvFuture<'_, (K, T)> {
+    if self.closed.load(Ordering::Relaxed) {
+      return self.consumer.recv_async_closed();
+    }
     self.consumer.recv_async()
   }
 
@@ -157,6 +160,9 @@ where
   /// - `Err(TryRecvError::Disconnected)`: The sender has been dropped and the
   ///   mailbox is empty.
   pub fn try_recv(&self) -> Result<(K, T), TryRecvError> {
+    if self.closed.load(Ordering::Relaxed) {
+      return Err(TryRecvError::Disconnected);
+    }
     self.consumer.try_recv()
   }
 
@@ -257,13 +263,14 @@ where
     let consumer = unsafe { std::ptr::read(&self.consumer) };
     let producer_mailbox = unsafe { std::ptr::read(&self.producer_mailbox) };
     let subscriptions = unsafe { std::ptr::read(&self.subscriptions) };
+    let closed = self.closed.load(Ordering::Relaxed);
     mem::forget(self);
     TopicReceiver {
       dispatcher,
       consumer,
       producer_mailbox,
       subscriptions,
-      closed: AtomicBool::new(false),
+      closed: AtomicBool::new(closed),
     }
   }
 }
@@ -315,14 +322,9 @@ where
   T: Send + Clone + 'static,
 {
   fn drop(&mut self) {
-    if let Some(dispatcher) = self.dispatcher.upgrade() {
-      let topics_to_unsubscribe: Vec<K> = self.subscriptions.lock().drain().collect();
-
-      for topic in topics_to_unsubscribe {
-        self.unsubscribe(&topic);
-      }
-
-      dispatcher.receiver_count.fetch_sub(1, Ordering::Relaxed);
+    // A handle that was already closed has released its receiver slot.
+    if !self.closed.swap(true, Ordering::AcqRel) {
+      self.close_internal();
     }
   }
 }
@@ -337,6 +339,9 @@ where
   fn poll_next(self: Pin<&mut Self>, cx: &mut Context<'_>) -> Poll<Option<Self::Item>> {
     // We can use Pin::get_mut because we are not moving out of the future.
     let receiver = self.get_mut();
+    if receiver.closed.load(Ordering::Relaxed) {
+      return Poll::Ready(None);
+    }
     match Pin::new(&mut receiver.consumer.recv_async()).poll(cx) {
       Poll::Ready(Ok(value)) => Poll::Ready(Some(value)),
       Poll::Ready(Err(_)) => Poll::Ready(None), // Disconnected
